@@ -174,6 +174,19 @@ def build(spec, qhook=None, path=()):
     raise ValueError(f"unknown primitive {k}")
 
 
+def relabeled(spec):
+    """The same tree with the keys of every Label / UntypedLabel given in the opposite order (Label(a=.., b=..) vs
+    Label(b=.., a=..)): the two trees are the same aggregator, labelled children are matched by key, never by position."""
+    if isinstance(spec, dict):
+        out = {k: relabeled(v) for k, v in spec.items()}
+        if spec.get("k") in ("Label", "UntypedLabel"):
+            out["pairs"] = dict(reversed(list(out["pairs"].items())))
+        return out
+    if isinstance(spec, list):
+        return [relabeled(v) for v in spec]
+    return spec
+
+
 def child_specs(spec):
     """Yield (slot, key, child spec) for every child position of a spec node."""
     for slot, kind in SLOTS.get(spec["k"], ()):
